@@ -45,6 +45,7 @@ type Wire struct {
 	MaxFrame int
 
 	Mut       *Mutation
+	Muts      []*Mutation // further simultaneous mutations (other fields)
 	truncated bool
 
 	// FieldCount counts how often each field name was written (for enumeration).
@@ -160,7 +161,16 @@ func (w *Wire) WriteFrame(tag int, payload []byte) error {
 
 func (w *Wire) mutate(field string, v int64) (int64, bool) {
 	w.FieldCount[field]++
-	m := w.Mut
+	trunc := false
+	for _, m := range append([]*Mutation{w.Mut}, w.Muts...) {
+		var tr bool
+		v, tr = m.apply(field, v)
+		trunc = trunc || tr
+	}
+	return v, trunc
+}
+
+func (m *Mutation) apply(field string, v int64) (int64, bool) {
 	if m == nil || m.Fired || m.Field != field {
 		return v, false
 	}
@@ -251,7 +261,13 @@ func (w *Wire) PutLong64(field string, v int64) {
 
 func (w *Wire) PutBytes(field string, p []byte) {
 	_, tr := w.mutate(field, int64(len(p)))
-	if w.Mut != nil && w.Mut.Fired && w.Mut.Field == field && w.Mut.Class == "noise" && len(p) > 0 {
+	noise := false
+	for _, m := range append([]*Mutation{w.Mut}, w.Muts...) {
+		if m != nil && m.Fired && m.Field == field && m.Class == "noise" && m.seen == m.Nth+1 {
+			noise = true
+		}
+	}
+	if noise && len(p) > 0 {
 		q := append([]byte(nil), p...)
 		for i := range q {
 			q[i] ^= byte(0x5a + i*7)
